@@ -112,6 +112,36 @@ class Gen:
         self.used[name] = list(v)
         return list(v)
 
+    def reclist(self, name, schema):
+        """list of dicts; model keys: <name>.n, <name>.<field>.has/none/val as {index: value} or lists"""
+        n = self.model.get(name + ".n")
+        if not isinstance(n, int) or isinstance(n, bool) or n < 0 or n > 64:
+            n = self.rnd.choice([0, 1, 1, 2, 3, 7, 8, 9, 17])
+        out = []
+        mode = self.rnd.random()
+        for k in range(n):
+            d = {}
+            for f, spec in schema.items():
+                present = True
+                if spec.get("optional"):
+                    present = self.rnd.random() < (0.95 if mode < 0.4 else 0.7)
+                if not present:
+                    continue
+                if spec.get("nullable") and self.rnd.random() < (0.05 if mode < 0.4 else 0.35):
+                    d[f] = None
+                    continue
+                t = spec.get("type", "int")
+                if t == "bool":
+                    d[f] = self.rnd.random() < 0.5
+                elif t == "str":
+                    d[f] = self.str("%s[%d].%s" % (name, k, f)) or "n%d" % k
+                else:
+                    hi = spec.get("max", (1 << 64) - 1)
+                    d[f] = self.rnd.choice([0, 1, hi, self.rnd.randrange(0, hi + 1), self.rnd.randrange(0, min(hi, 1 << 20) + 1)])
+            out.append(d)
+        self.used[name] = out
+        return out
+
     def bool_list(self, name):
         ok, v = self._take(name)
         if not (ok and isinstance(v, list) and all(isinstance(x, bool) for x in v)):
@@ -138,6 +168,7 @@ class CSnap:
             else:
                 self.files[id(f)] = ("i", f.getvalue(), f.tell())
         self.objs = {id(o): copy.deepcopy(_obj_state(o)) for o in ctx._objs}
+        self.lists = {id(l): copy.deepcopy(l) for l in ctx._lists}
 
     def data(self, f):
         return self.files[id(f)][1]
@@ -170,6 +201,11 @@ class CSnap:
     def dict_items(self, d):
         return d
 
+    def rl(self, x):
+        from .reclist import ConcreteRecView
+
+        return ConcreteRecView(self.lists.get(id(x), x))
+
 
 def _obj_state(o):
     if hasattr(o, "__dict__"):
@@ -192,6 +228,7 @@ class ConcreteCtx:
         self.gen = gen
         self._files = []
         self._objs = []
+        self._lists = []
         self._old = None
         self._bound = None
 
@@ -226,6 +263,16 @@ class ConcreteCtx:
 
     def opq(self, name):
         return None
+
+    def reclist(self, name, schema):
+        l = self.gen.reclist(name, schema)
+        self._lists.append(l)
+        return l
+
+    def rl(self, x):
+        from .reclist import ConcreteRecView
+
+        return ConcreteRecView(x)
 
     def instream(self, name="file", pos0=None):
         data = self.gen.bytes(name + ".data")
@@ -320,6 +367,21 @@ class ConcreteCtx:
     def inst(self, k):
         pass
 
+    def seq_of(self, name, fn, n, elem="bool"):
+        return [fn(k) for k in range(max(n, 0))]
+
+    def appended(self, old, file):
+        return self.out(file)[len(old.out(file)):]
+
+    def ghost_segments(self, file, names, concrete=None, optional=False):
+        app = self.out(file)[len(self._old.out(file)):]
+        if optional and len(app) == 0:
+            return [b""] * len(names)
+        segs = concrete(app)
+        if segs is None or len(segs) != len(names):
+            return [b"<unparsable>"] * len(names)
+        return segs
+
 
 class InvalidInput(Exception):
     pass
@@ -336,10 +398,10 @@ def eval_clause(f, over_hint=None):
     if isinstance(f, ForAll):
         over = f.over
         try:
-            n = len(over)
+            n = len(over) if over is not None else int(f.n)
         except Exception:
             n = 8
-        for k in range(-2, 8 * ((n + 7) // 8) + 10 if not f.trigger else n + 3):
+        for k in range(-2, 8 * ((n + 7) // 8) + 10 if (not f.trigger and over is not None) else n + 3):
             try:
                 v = f.fn(k)
             except (IndexError, ZeroDivisionError):
